@@ -17,6 +17,38 @@ TABLE = {
                             'end-to-end last-writer soundness'),
     'C08': dict(level='other', bounded=[('c08_activity.py', 'symtable comparison per function + dynamic read/write log per executed statement')],
                 explanation='bounded stand-in only in this revision (Scope algebra contracts not yet discharged)'),
+    'C02': dict(level='other', bounded=[('c02_functional.py', 'side-effect-free functional backend installed as the operators, compared with the original'),
+                                        ('rt_blockvars.py', 'run-time evaluation of the state-selection contracts on small inputs')],
+                explanation='proved: state-variable selection (_get_block_basic_vars/_get_block_composite_vars/_get_block_vars: exactly the '
+                            'modified simple variables that are live in/out or nonlocal, composites with live support, outputs first, '
+                            'nouts) and liveness kernels (C07); assumed with a bounded stand-in: end-to-end state completeness under a '
+                            'functional backend'),
+    'C05': dict(level='other', bounded=[('c05_paths.py', 'well-formedness of every built graph + probe-trace path inclusion')],
+                explanation='bounded stand-in in this revision (GraphBuilder invariant proofs pending): Inv_G mirror, single entry, '
+                            'reachability, stmt_next/stmt_prev agreement checked on every built graph; executed probe traces are CFG paths'),
+    'C09': dict(level='other', bounded=[('c09_interface.py', 'signature/defaults/globals/closure identity and call bindings over all signature shapes')],
+                explanation='bounded stand-in in this revision (instantiate/transform_function contracts pending)'),
+    'C10': dict(level='other', bounded=[('c10_cache.py', 'random request histories x option sets x 1..32 threads against fresh conversions')],
+                explanation='proved: the cache data structure (_TransformedFnCache.has/__getitem__, CodeObjectCache/UnboundInstanceCache '
+                            '_get_key) and the options value type used as sub-key (C20); assumed with a bounded stand-in: the monitor '
+                            'invariant of PyToPy.transform_function and end-to-end coherence'),
+    'C11': dict(level='other', bounded=[('c11_names.py', 'adversarial renaming to the converter vocabulary, differential run + new_symbol log'),
+                                        ('rt_namer.py', 'run-time evaluation of the new_symbol contract')],
+                explanation='proved: Namer.new_symbol never returns a name of the namespace, a reserved name (QNs flattened) or an earlier '
+                            'generated name; assumed with a bounded stand-in: every call site reserves the names visible to the user code'),
+    'C12': dict(level='other', bounded=[('c12_errors.py', 'one failing statement at any position/depth, callee chains <= 4, traceback and source-map oracle')],
+                explanation='bounded stand-in in this revision (create_exception / stack translation contracts pending)'),
+    'C13': dict(level='other', bounded=[('c13_zoo.py', 'callable zoo x argument shapes x options x injected pipeline failures')],
+                explanation='proved: conversion-rule matching (Rule.matches: exact module or dotted prefix) and the allow-list cache '
+                            'structure; assumed with a bounded stand-in: the converted_call decision chain'),
+    'C14': dict(level='other', bounded=[('c14_builtins.py', 'every call shape of the 13 builtins over value classes + context-sensitive builtins in nested bodies')],
+                explanation='bounded stand-in in this revision (event-mode contracts of the overloads pending)'),
+    'C15': dict(level='other', bounded=[('c15_source.py', 'layout grammar for defs and lambdas, recovered tree vs the node compiled by the interpreter')],
+                explanation='bounded stand-in in this revision'),
+    'C18': dict(level='other', bounded=[('c18_anf.py', 'side-effecting calls in every operand position, default and random configurations')],
+                explanation='bounded stand-in in this revision'),
+    'C19': dict(level='other', bounded=[('c19_types.py', 'truthful resolver, run-time type log vs TYPES / CLOSURE_TYPES')],
+                explanation='proved: the shared worklist fixed point; bounded stand-in for the inference itself'),
     'C17': dict(level='other', bounded=[('c17_tree.py', 'tree-ness, ctx, compile, reparse identity, to_code text vs loaded module')],
                 explanation='bounded stand-in (run-time contract on PyToPy.transform_ast output)'),
 }
